@@ -140,7 +140,13 @@ def inject(prog, r, n_events):
         pos = r.randint(0, len(body))
         c = r.random()
         tag = f"<{k}>"
-        if c < 0.55:
+        if c < 0.12:
+            # Print(*args, sep=..., end=...) as Python's print(): values, strings (also empty ones) and the tag as arguments
+            items = [r.choice([arg(), arg(), ["pyint", ""], ["pyint", r.choice(["x", " ", "", "ab"])]]) for _ in range(r.randint(0, 3))]
+            items.insert(r.randint(0, len(items)), ["pyint", f"@<{k}>@"])
+            sep = r.choice([" ", " ", "", "-", ", "])
+            body.insert(pos, ["print", "sync", sep.join(["{}"] * len(items)), items, {"sep": sep, "end": r.choice(["\n", "\n", "", ";\n"])}])
+        elif c < 0.55:
             text, args = fmt(tag)
             body.insert(pos, ["print", "sync", text, args])
         else:
@@ -267,8 +273,13 @@ def templates_differ(got, exp_text, reg, const_of=None):
 
 
 def tag_of(text):
-    m = re.match(r"<(\d+)>", text)
+    m = re.match(r"<(\d+)>", text) or re.search(r"@<(\d+)>@", text)       # (the second form: the tag is one argument among several)
     return int(m.group(1)) if m else None
+
+
+def end_of(st):
+    """What follows the text of a Print: Python's print() default, or the statement's own `end`."""
+    return st[4]["end"] if len(st) > 4 else PRINT_END
 
 
 def uses_s(prog):
@@ -381,13 +392,15 @@ def check_program(job):
                 which = "print" if st[0] == "print" else "assert"
                 fmt_text = st[2] if st[0] == "print" else st[3]
                 t = tag_of(fmt_text)
+                if t is None:
+                    t = next((tag_of(a_[1]) for a_ in (st[3] if st[0] == "print" else st[4]) if a_[0] == "pyint" and isinstance(a_[1], str) and tag_of(a_[1]) is not None), None)
                 seen.add(t)
                 if st[0] != "print":
                     tv, _ = refsem.ref_eval(st[2], env)
                     cond = sym_and(cond, tv == 0)
                 reg = []
                 try:
-                    exp_text = expected_text(st, env, reg) + (PRINT_END if st[0] == "print" else "")
+                    exp_text = expected_text(st, env, reg) + (end_of(st) if st[0] == "print" else "")
                 except Unsupported as ex:
                     hard[which].append(f"reference: {ex}")
                     continue
@@ -533,7 +546,7 @@ def oracle_concrete(prog, env0, rst):
             continue
         try:
             if st[0] == "print":
-                out += expected_text(st, env_, []) + PRINT_END
+                out += expected_text(st, env_, []) + end_of(st)
             else:
                 tv, _ = refsem.ref_eval(st[2], env_)
                 if tv == 0:
@@ -1041,6 +1054,8 @@ def corner_programs():
     P.append({"signals": copy.deepcopy(base_sigs), "fsms": {},
               "stmts": [["print", "sync", "<0>{:{:02d}x}|{:{}>{:+d}}", [sg("t0", 8), ["pyint", 4], sg("i1", 4, True), ["pyint", "*"], ["pyint", 6]]],
                         ["assert", "sync", sg("i0", 3), "<1>{2:{0:02d}b} {1!r:>4}", [["pyint", 7], ["pyint", "q"], sg("i0", 3)]],
+                        ["print", "sync", "{}-{}-{}-{}", [["pyint", ""], ["pyint", ""], sg("i0", 3), ["pyint", "@<2>@"]], {"sep": "-", "end": ";\n"}],
+                        ["print", "sync", "{} {} {}", [["pyint", ""], sg("i1", 4, True), ["pyint", "@<3>@"]], {"sep": " ", "end": ""}],
                         ["assign", "sync", sg("r0", 3), sg("i0", 3)]]})
     return P
 
